@@ -427,8 +427,10 @@ def write_replay(pid, payload):
 
 
 def write_evidence(pid, ev):
-    os.makedirs(os.path.join(ROOT, "evidence"), exist_ok=True)
-    path = os.path.join(ROOT, "evidence", "%s.json" % pid)
+    # development runs against a scratch worktree (VERIF_REPO) must not overwrite the evidence of /repo runs
+    sub = "evidence" if os.path.realpath(REPO) == "/repo" else "evidence_dev"
+    os.makedirs(os.path.join(ROOT, sub), exist_ok=True)
+    path = os.path.join(ROOT, sub, "%s.json" % pid)
     with open(path, "w") as f:
         json.dump(ev, f, indent=1, sort_keys=True, default=repr)
     return path
